@@ -235,7 +235,8 @@ def write_sites():
 # state that is a cache / registry by construction (suffix match on the state name)
 BENIGN_SUFFIX = {
     "_SubTypes": "cache (C13: insert-only, keyed by the parameters)",
-    "_known_definitions": "cache of parsed function definitions",
+    "_known_definitions": "cache of parsed function definitions INCLUDING the captured values of their globals: not keyed by what determines the value, "
+                          "so it is discarded when a compilation ends (ConvertPythonInstance.__exit__ contract in c11_frames; designs v_global_* of the history sweep)",
     "_intrinsic_functions": "registry (import time)",
     "_intrinsic_replacements": "registry (import time)",
     "_expr_functions": "registry (import time)",
